@@ -17,7 +17,7 @@ Viol(r, j) ==
              ELSE IF \E k \in {1, 2} : Len(j.nlri) >= k /\ Take(j.nlri, k) = EncLen(Len(j.nlri) - k) THEN {"C16-nlri-components-differ-from-rfc8955"}
              ELSE {"C16-nlri-length-field-differs-from-rfc8955"})
             \cup Chk("C16-rule-leaves-under-the-wrong-address-family", j.fam = <<IF r.v6 THEN 2 ELSE 1, IF r.rd THEN 134 ELSE 133>>)
-            \cup Chk("C16-traffic-action-community-differs", Action(r) \in SetOf(j.ecs) /\ Len(j.ecs) = 1)
+            \cup Chk("C16-traffic-action-community-differs", SetOf(j.ecs) = Actions(r) /\ Len(j.ecs) = Cardinality(Actions(r)))
             \cup Chk("C16-well-formed-nlri-not-decoded-to-the-same-rule", j.redec = want)
             \cup Chk("C16-malformed-nlri-delivered-as-a-rule", j.refusedOk)
 VARIABLES l, bad
